@@ -101,6 +101,8 @@ func c03Alphabet(tier string) []seqSym {
 		fill.Model = append(fill.Model, []string{"SET", "k1", fmt.Sprintf("f%02d", i), "POINT", "1", fmt.Sprint(i)})
 	}
 	a = append(a, fill, seqSym{Name: "AOFSHRINK", Args: []string{"AOFSHRINK"}, Model: [][]string{}})
+	// a JSET that is refused (empty path) on a key that does not exist yet: nothing may remain
+	a = append(a, seqSym{Name: "JSET k7 x <empty path> 1", Args: []string{"JSET", "k7", "x", "", "1"}, Model: [][]string{}})
 	// a channel whose filter names a loaded script by its sha (SCRIPT LOAD first, then SETCHAN ... WHEREEVALSHA)
 	shaChan := []string{"SETCHAN", "chsha", "WITHIN", "k9", "WHEREEVALSHA", Sha1Sum(c03FilterScript), "0", "FENCE", "BOUNDS", "50", "50", "51", "51"}
 	a = append(a, seqSym{Name: "@SHACHAN SCRIPT LOAD + SETCHAN chsha ... WHEREEVALSHA", Args: append([]string{"@SHACHAN"}, shaChan...), Model: [][]string{shaChan}})
